@@ -1,6 +1,8 @@
 #!/bin/sh
 # Dev-time cross-check of the refclass parser against javap (JDK 17).
-# usage: tools/javap_crosscheck.sh [DIR-or-FILES...]   (default: ../corpus/classes)
+# usage: [MODE=insns] tools/javap_crosscheck.sh [DIR-or-FILES...]   (default: ../corpus/classes)
+# MODE=insns compares only class/field/method headers, instructions and exception tables
+# (for classes written by refclass-dump --gen, whose attribute order is shuffled).
 # For every class file: refclass-dump listing vs. normalised `javap -v -p -c -l`.
 # Lines javap_norm.py does not extract (interfaces, record components, inner
 # class flags) are dropped from the refclass side before diffing.
@@ -15,6 +17,10 @@ for f in $(find "$@" -name '*.class' | sort); do
   n=$((n+1))
   "$dump" "$f" | grep -v '^interface \|^component ' | sed -E 's/^(inner .*) flags 0x[0-9a-f]+$/\1/' > "$tmp/a" || { echo "DUMP FAILED $f"; fail=$((fail+1)); continue; }
   javap -J-Dfile.encoding=UTF-8 -J-Dstdout.encoding=UTF-8 -v -p -c -l "$f" 2>/dev/null | python3 "$here/tools/javap_norm.py" > "$tmp/b" 2>"$tmp/err" || { echo "NORM FAILED $f"; tail -3 "$tmp/err"; fail=$((fail+1)); continue; }
+  if [ "${MODE:-full}" = "insns" ]; then
+    # generated classes: attribute order / table splitting is arbitrary; compare code only
+    for x in a b; do grep -E '^    [0-9]+: |^  try |^method |^field |^  code |^class ' "$tmp/$x" > "$tmp/$x.f"; mv "$tmp/$x.f" "$tmp/$x"; done
+  fi
   if ! diff -u "$tmp/a" "$tmp/b" > "$tmp/d"; then
     echo "DIFF $f"; head -${DIFFLINES:-12} "$tmp/d"; fail=$((fail+1))
   fi
